@@ -9,11 +9,17 @@ Decompositions into MANY small patches (64..288 patches, each far below 1/32 of 
 spec/PartitionGenMany.tla (TLC enumerates sheared / staircase block partitions, all balanced splittings of 8-cell tiles,
 runs, pseudo-random and Voronoi assignments), compact dumps of harness/c12_parti.cpp judged by spec/PartitionManyCheck.tla
 (level 0 by Partition.tla verbatim, refined levels through an entity table), lib/c12_many.py.
+Meshes whose WORLD dimension exceeds the shape dimension (quadrilateral / triangle surface meshes in 3D, edge meshes in 2D and 3D):
+spec/PartitionGenEmbed.tla enumerates the base meshes, harness/c12_embed.cpp (ConformalMesh<Shape_, wdim_>), lib/c12_embed.py; judged by
+PartitionCheck.tla like every other dump - PatchIsSubmesh compares ALL world coordinates of every patch vertex, on every level.
+MPI route: the real control layer Control::Domain::PartiDomainControl on 2..16 processes (single- and multi-layered hierarchies with
+several progeny groups), harness/c12_pdc.cpp, lib/c12_pdc.py, cross-rank invariants of spec/PartitionDist.tla (PartitionDistCheck.tla)
+incl. the neighbour ranks each layer stores (layer numbering, equal to the halo ranks, symmetric, complete).
 """
 import glob, json, os, random, re, shutil, time
 import concurrent.futures as cf
 import threading
-import vlib, vmeshlib, c12_many
+import vlib, vmeshlib, c12_many, c12_embed, c12_pdc
 
 LEVEL = "model_checking"
 MESHDIR = os.path.join(vlib.REPO, "data", "meshes")
@@ -54,25 +60,65 @@ def small_meshes(files):
 
 
 def sig(c, pred, lev):
+    if c.get("embed"):
+        return {"kind": "embed", "src": c["srcname"], "fam": c["fam"], "dim": c["dim"], "wdim": c["wdim"], "pred": pred, "level": lev,
+                "nranks": len(c["parti"]["ranks"])}
     return {"kind": c["parti"]["kind"], "src": c["srcname"], "fam": c["fam"], "dim": c["dim"], "pred": pred, "level": lev,
             "nranks": c["parti"].get("n", sum(len(p) for p in c["parti"]["parents"]) if "parents" in c["parti"] else len(c["parti"].get("ranks", [])))}
+
+
+class _Recorder:
+    """stands in for the Check object inside a worker thread: records the calls, the main thread replays them (the bookkeeping of
+    vlib.Check is not written for concurrent use)"""
+    def __init__(self, chk):
+        self.pid, self.tier, self.t0 = chk.pid, chk.tier, chk.t0
+        self.calls, self.extra, self.traces = [], {}, 0
+
+    def add_tlc(self, *a, **k): self.calls.append(("add_tlc", a, k))
+    def count(self, *a, **k): self.calls.append(("count", a, k))
+    def sample(self, *a, **k): self.calls.append(("sample", a, k))
+    def violation(self, *a, **k): self.calls.append(("violation", a, k))
+    def model_violation(self, *a, **k): self.calls.append(("model_violation", a, k))
+
+    def replay_into(self, chk):
+        for name, a, k in self.calls:
+            getattr(chk, name)(*a, **k)
+        chk.extra.update(self.extra)
+        chk.traces += self.traces
 
 
 def run(chk):
     tier = chk.tier
     rng = random.Random(vlib.seed())
-    binary, binary2 = vlib.build(["c12_parti", "c12_twolayer"])
+    # the MPI harness is compiled (own build directory) while the serial harnesses are compiled and TLC generates
+    mpi = {}
+
+    def build_mpi():
+        try:
+            if shutil.which("mpirun") is None or shutil.which("mpicxx") is None:
+                raise vlib.MachineryError("MPI toolchain (mpicxx/mpirun) not available")
+            mpi["bin"], = vlib.build(["c12_pdc"], variant="mpi")
+        except BaseException as e:
+            mpi["err"] = e
+    bt = threading.Thread(target=build_mpi)
+    bt.start()
+    try:
+        binary, binary2, binary3 = vlib.build(["c12_parti", "c12_twolayer", "c12_embed"])
+    except BaseException:
+        bt.join()
+        raise
     gdir = os.path.join(vlib.BUILD, "gen", "C12", "run_%d" % os.getpid())
     os.makedirs(gdir, exist_ok=True)
     try:
-        _run(chk, tier, rng, binary, binary2, gdir)
+        _run(chk, tier, rng, binary, binary2, gdir, binary3, bt, mpi)
     finally:
+        bt.join()
         shutil.rmtree(gdir, ignore_errors=True)
         for p in glob.glob(os.path.join(vlib.SPEC, "gen_c12_%d_*.cfg" % os.getpid())):
             os.remove(p)
 
 
-def _run(chk, tier, rng, binary, binary2, gdir):
+def _run(chk, tier, rng, binary, binary2, gdir, binary3, bt, mpi):
     files = [f for f in mesh_files() if f["name"] not in EXCLUDED_FILES]
     thorough = tier == "thorough"
 
@@ -103,7 +149,12 @@ def _run(chk, tier, rng, binary, binary2, gdir):
         with open(os.path.join(vlib.SPEC, cfg), "w") as f:
             f.write(c12_many.gen_cfg(m, vlib.seed()))
         jobs.append(("PartitionGenMany", cfg, ("many", k)))
-    assigns, genmeshes, twolevel, manygen = {}, [], {}, {}
+    # base meshes with world dimension > shape dimension
+    cfg = "gen_c12_%d_e.cfg" % os.getpid()
+    with open(os.path.join(vlib.SPEC, cfg), "w") as f:
+        f.write(c12_embed.GEN_CFG)
+    jobs.append(("PartitionGenEmbed", cfg, ("embed",)))
+    assigns, genmeshes, twolevel, manygen, embmeshes = {}, [], {}, {}, []
     with cf.ThreadPoolExecutor(max_workers=8) as ex:
         futs = [(ex.submit(vlib.tlc, j[0], j[1], timeout=900, xmx="2g"), j) for j in jobs]
         for fu, (mod, cfg, what) in futs:
@@ -118,6 +169,8 @@ def _run(chk, tier, rng, binary, binary2, gdir):
                 twolevel[what[1]] = [p["parents"] for p in r.printed]
             elif what[0] == "many":
                 manygen[what[1]] = r.printed
+            elif what[0] == "embed":
+                embmeshes = r.printed
             else:
                 for i, c in enumerate(r.printed):
                     genmeshes.append(("gen:%s" % what[3], what[1], what[2], c["src"], 2 if what[3] == "pair" else 3, i))
@@ -125,6 +178,41 @@ def _run(chk, tier, rng, binary, binary2, gdir):
     chk.extra["two_level_partitions_enumerated"] = {str(n): len(a) for n, a in twolevel.items()}
     vlib.log("[C12] generation done %.1fs" % (time.time() - chk.t0))
 
+    # ---- 1a. MPI route (PartiDomainControl on 2..16 processes): runs in its own thread next to the serial stages ----
+    bt.join()
+    if "err" in mpi:
+        raise mpi["err"]
+    rec = _Recorder(chk)
+    pres = {}
+
+    def pdc_phase():
+        try:
+            pdir = os.path.join(gdir, "pdc")
+            os.makedirs(pdir, exist_ok=True)
+            pres["n"] = c12_pdc.run_phase(rec, assigns, random.Random(vlib.seed() + 7919), pdir, mpi["bin"])
+        except BaseException as e:          # re-raised in the main thread
+            pres["err"] = e
+    pthread = threading.Thread(target=pdc_phase)
+    pthread.start()
+    try:
+        _run_serial(chk, tier, rng, binary, binary2, gdir, binary3, files, thorough, assigns, genmeshes, twolevel, manygen, manymeshes, embmeshes)
+    finally:
+        pthread.join()
+    if "err" in pres:
+        raise pres["err"]
+    rec.replay_into(chk)
+    chk.rule += ("  MPI route: Control::Domain::PartiDomainControl::create() on 2, 4, 8 (thorough: up to 16) MPI processes, structured quad / hexa "
+                 "base meshes, single-, two-, three- and four-layered hierarchies (--level lists such as '4:4 2:2 0:1', '3:8 2:4 1:2 0', i.e. 2 and 4 "
+                 "progeny groups per layer), partitioning by the shipped partitioners (naive, 2level, genetic, extern) or prescribed by an owner "
+                 "map (every assignment of 4 cells to 4 ranks TLC enumerates, seeded random maps for 8..16 ranks); every rank dumps its layers, "
+                 "TLC judges the cross-rank invariants of spec/PartitionDist.tla per layer and level; distinct = configuration.")
+    chk.assumptions = [a for a in chk.assumptions if not a.startswith("extract_patch is called serially")] + [
+        "serial routes: extract_patch is called for every rank on one base node (no communicator), the multi-layer halo splitting is reproduced "
+        "serially (same calls in the same order as _split_basemesh_halos); the MPI route runs the unchanged control layer under OpenMPI "
+        "(oversubscribed ranks on one machine)"]
+
+
+def _run_serial(chk, tier, rng, binary, binary2, gdir, binary3, files, thorough, assigns, genmeshes, twolevel, manygen, manymeshes, embmeshes):
     cases = []
 
     def add(name, fam, dim, src, parti, nref, maxcells=4000, fileparts=1, bnd=1):
@@ -205,6 +293,11 @@ def _run(chk, tier, rng, binary, binary2, gdir):
                 {"kind": "explicit", "ranks": [[c for c in range(nc) if asg[c] == r] for r in range(n)]}, 2 if dim == 2 else 1, maxcells)
     chk.extra["sampled_cases"] = len(cases) - nexh
 
+    # ---- 2c. world dimension > shape dimension: every mesh of PartitionGenEmbed x the assignments of PartitionGen ----
+    casese = c12_embed.cases(embmeshes, assigns, tier, rng, gdir)
+    chk.extra["embedded_meshes_enumerated"] = len(embmeshes)
+    chk.extra["embedded_cases"] = len(casese)
+
     # ---- 2a. many small patches: configurations enumerated by TLC (spec/PartitionGenMany.tla), sampled per tier ----
     casesm = []
     many_enum = {}
@@ -257,13 +350,17 @@ def _run(chk, tier, rng, binary, binary2, gdir):
     with cf.ThreadPoolExecutor(max_workers=nch + 1) as ex:
         fm = [ex.submit(vlib.run_cases, binary, ch, 600, 1) for ch in chunks if ch]
         res = vlib.run_cases(binary, cases, tmo=120, shards=8)
+        rese = vlib.run_cases(binary3, casese, tmo=120, shards=4)
         resm = {}
         for ch, fu in zip([ch for ch in chunks if ch], fm):
             for c, rr in zip(ch, fu.result()):
                 resm[c["id"]] = rr
     good = []
-    for c, rr in list(zip(cases, res)) + [(c, resm[c["id"]]) for c in casesm]:
+    pverts = 0
+    for c, rr in list(zip(cases, res)) + list(zip(casese, rese)) + [(c, resm[c["id"]]) for c in casesm]:
         chk.count(c["id"], True)
+        if c.get("embed") and rr.get("ok") is True:
+            pverts += rr.get("patch_vertices", 0)
         if rr.get("ok") is True and rr.get("skip"):
             chk.extra["skipped"] = chk.extra.get("skipped", 0) + 1
             continue
@@ -275,8 +372,9 @@ def _run(chk, tier, rng, binary, binary2, gdir):
         sg = sig(c, "harness:" + str(rr.get("outcome", "bad")), -1)
         sg["exc"] = "out_of_range" if "out_of_range" in desc else ("other" if rr.get("outcome") == "exception" else "")
         chk.violation(sg, "%s (%s, %s): %s" % (c["id"], c["srcname"], json.dumps(c["parti"])[:200], desc),
-                      {"kind": "case", "harness": "c12_parti", "case": slim, "result": rr})
-    vlib.log("[C12] harness done %.1fs (%d + %d cases)" % (time.time() - chk.t0, len(cases), len(casesm)))
+                      {"kind": "case", "harness": "c12_embed" if c.get("embed") else "c12_parti", "case": slim, "result": rr})
+    chk.extra["embedded_patch_vertices_compared_in_all_world_coordinates"] = pverts
+    vlib.log("[C12] harness done %.1fs (%d + %d + %d cases)" % (time.time() - chk.t0, len(cases), len(casese), len(casesm)))
 
     # ---- 3b. the many-patch dumps are judged by PartitionManyCheck.tla, concurrently with the stages 4 and 5 ----
     goodm = [c for c in good if c.get("compact")]
@@ -293,7 +391,7 @@ def _run(chk, tier, rng, binary, binary2, gdir):
     if goodm:
         mthread.start()
     try:
-        _judge_rest(chk, thorough, cases, good, cases2, binary2)
+        _judge_rest(chk, thorough, cases + casese, good, cases2, binary2)
     finally:
         if goodm:
             mthread.join()
@@ -354,7 +452,7 @@ def _judge_rest(chk, thorough, cases, good, cases2, binary2):
         slim = {k: c[k] for k in c if k != "out"}
         for fl in v["fails"]:
             chk.violation(sig(c, fl["p"], fl["l"]), "%s (%s, %s): %s does not hold at level %d" % (d["id"], c["srcname"], json.dumps(c["parti"])[:200], fl["p"], fl["l"]),
-                          {"kind": "case", "harness": "c12_parti", "case": slim, "verdict": v, "assign": d["assign"]})
+                          {"kind": "case", "harness": "c12_embed" if c.get("embed") else "c12_parti", "case": slim, "verdict": v, "assign": d["assign"]})
     vlib.log("[C12] single layer judged %.1fs" % (time.time() - chk.t0))
 
     # ---- 5. two-layer route: real code, then TLC composes child -> parent -> base and judges both layers ----
@@ -403,6 +501,12 @@ def _judge_rest(chk, thorough, cases, good, cases2, binary2):
                 "(quick: one labelling per set partition for 5 and 6 cells) and for the two-/three-cell gluings of spec/MeshGen.tla; plus Parti2Lvl for "
                 "n = 1..16, PartiIterative, the manual partitions stored in the mesh files and seeded random assignments on shipped meshes; every case = "
                 "extract_patch for every rank + joint refinement, all levels judged by TLC against spec/Partition.tla; distinct = mesh x assignment. "
+                "World dimension > shape dimension (ConformalMesh<Quadrilateral,3>, <Triangle,3>, <Edge,2>, <Edge,3>): TLC enumerates "
+                "(spec/PartitionGenEmbed.tla) the closed surfaces of the reference cube / tetrahedron, the octahedron, quadrilateral and triangle "
+                "grids lifted into 3D by three maps (skew plane, roof, parabolic sheet), closed polygons and polylines of 2..12 edges in 2D / 3D; "
+                "each x every assignment for <= 6 cells (quick: all of them for the closed surfaces, loops, the roof lift and short lines, every "
+                "6th otherwise), seeded assignments beyond and on the once refined mesh; 1..2 joint refinements; PatchIsSubmesh compares all world "
+                "coordinates of every patch vertex with its base vertex. "
                 "Two-layer route: TLC enumerates (spec/PartitionGen2L.tla) every two-level set partition (parents, children inside each parent; both "
                 "rank orders) for all base meshes with <= 5 (thorough 6) cells, plus seeded random two-level partitions of 3x3/4x4/2x2x2/3x2x2 meshes; "
                 "each case = parent extract_patch, child extract_patch on the parent nodes, PatchHaloSplitter for the cross-parent halos, joint "
